@@ -14,6 +14,7 @@ import ZapModel.Spec
 import ZapModel.Life
 import ZapModel.Vector
 import ZapModel.Layout
+import ZapModel.BuildArrays
 import ZapModel.EncCheck
 import Std.Data.HashMap
 
@@ -348,6 +349,8 @@ def commandObs (st : St) (c : Cmd) : St × Verdict :=
       let s := buildSeg st.vectors mode b
       if mode = 0 ∧ !b.isEmpty then (st, .exact "err:chunkzero") else
       if !modeOK mode s then (st, .exact (if mode ≤ 1026 then "err:chunkzero" else "err:other")) else
+      -- the array-level model of realloc/process (shared backing arrays) must agree with the entry-level one
+      if !Zap.Arr.arraysAgree st.vectors b then (st, .exact "model-inconsistency:backing-arrays") else
       ({ st with segs := st.segs.insert (c.arg 0) (s, st.nextTag), nextTag := st.nextTag + 1,
                  segBatch := st.segBatch.insert (c.arg 0) b }, .exact "ok")
   | "persist" =>
